@@ -383,3 +383,4 @@ H("C14", "utils", "VxH_C14_metadata", reach=["extracted", "not-a-standard-name"]
 H("C19", "html/boxes", "VxH_C19_descriptors_from_css", reach=["built"], bounds="@counter-style (numeric over ten letters) with negative: prefix suffix / prefix only, range: infinite 5 / 0 infinite; counter value in {-12, -2, 3, 7}", quick={"maxsteps": 100000000})
 H("C04", "html/tree", "VxH_C04_image_orientation", reach=["computed"], bounds="image-orientation of -6..6 quarter turns")
 H("C14", "utils", "VxH_C14_w3c_date", reach=["parsed"], bounds="W3C date-time with a time zone designator: sign x hours {0,1,5,11} x minutes {0,15,30,45}")
+H("C03", "html/tree", "VxH_C03_media", reach=["computed"], bounds="11 media lists (case variants of print / all / screen, lists, empty) in the media attribute of <style> or in an @media rule; print rendering", quick={"maxsteps": 100000000})
